@@ -62,6 +62,7 @@ func (c *concStore) Set(k kvstore.Key, v kvstore.Value) error {
 		return errKV
 	}
 	err := c.KVStore.Set(k, v)
+	scribble(v)
 	c.yield()
 
 	return err
@@ -627,6 +628,214 @@ func runWide(r *hx.Run, rng *hx.Rng) string {
 	return fmt.Sprintf("conc wide %d %s", n, csv(sampled))
 }
 
+// ---------------------------------------------------------------------------------------------
+// gate schedules: one writer is parked inside the store (it holds the write lock), a Delete and several
+// Compute/Set calls queue up behind it, then the gate opens and the lock admits them in whatever order it likes
+// (waiting readers first, then writers).  Every queued Set/Compute writes a unique value and every Compute reports
+// what its function was given; serialisation means that SOME order of the queued calls, started from what the
+// parked writer left, explains all reports and the final state.
+
+type gateStore struct {
+	kvstore.KVStore
+	armed   atomic.Bool
+	entered chan struct{}
+	release chan struct{}
+}
+
+func (g *gateStore) Set(k kvstore.Key, v kvstore.Value) error {
+	if g.armed.CompareAndSwap(true, false) {
+		close(g.entered)
+		<-g.release
+	}
+	err := g.KVStore.Set(k, v)
+	scribble(v)
+
+	return err
+}
+
+type gop struct{ kind, w, s uint64 } // kind: 0 Delete, 1 Set, 2 Compute
+
+// serialOrderExists is the Go oracle's own search (the Lean driver has its own, Conc.serialOk).
+func serialOrderExists(st uint64, ops []gop, final uint64) bool {
+	if len(ops) == 0 {
+		return st == final
+	}
+	for i, o := range ops {
+		next, ok := uint64(0), true
+		switch o.kind {
+		case 0:
+			next = 0
+		case 1:
+			next = o.w
+		default:
+			next, ok = o.w, o.s == st
+		}
+		if !ok {
+			continue
+		}
+		rest := append(append([]gop(nil), ops[:i]...), ops[i+1:]...)
+		if serialOrderExists(next, rest, final) {
+			return true
+		}
+	}
+
+	return false
+}
+
+func runGate(r *hx.Run, rng *hx.Rng) string {
+	if runtime.GOMAXPROCS(0) < 4 {
+		runtime.GOMAXPROCS(4)
+	}
+	base := mapdb.NewMapDB()
+	gs := &gateStore{KVStore: base, entered: make(chan struct{}), release: make(chan struct{})}
+	tv := kvstore.NewTypedValue[uint64](gs, tvKey,
+		func(v uint64) ([]byte, error) { return encU64(v), nil },
+		func(b []byte) (uint64, int, error) {
+			v, ok := decU64(b)
+			if !ok {
+				return 0, 0, errDec
+			}
+
+			return v, 8, nil
+		})
+	bad := func(what string) string {
+		r.Fail("watchdog", what, map[string]string{"oracle": "watchdog", "api": "TypedValue", "part": "gate"})
+
+		return "conc gate 0 0 - - -"
+	}
+	if err := tv.Set(10); err != nil {
+		return bad("initial Set failed: " + err.Error())
+	}
+	if rng.Bool() {
+		tv.Get() // warm or cold cache before the schedule
+	}
+	var wg sync.WaitGroup
+	var failures atomic.Int64
+	// the parked writer
+	parkedSeen, parkedCompute := uint64(0), rng.Bool()
+	gs.armed.Store(true)
+	wg.Add(1)
+	go func() {
+		defer wg.Done()
+		var err error
+		if parkedCompute {
+			_, err = tv.Compute(func(cur uint64, ex bool) (uint64, error) {
+				if ex {
+					parkedSeen = cur
+				}
+
+				return 20, nil
+			})
+		} else {
+			err = tv.Set(20)
+		}
+		if err != nil {
+			failures.Add(1)
+		}
+	}()
+	select {
+	case <-gs.entered:
+	case <-time.After(10 * time.Second):
+		close(gs.release)
+
+		return bad("the parked writer never reached the store")
+	}
+	// the queue behind it
+	n := rng.Range(4, 6)
+	ops := make([]gop, 0, n+2)
+	dels := 1
+	if rng.Chance(1, 4) {
+		dels = 2
+	}
+	for i := 0; i < dels; i++ {
+		ops = append(ops, gop{kind: 0})
+	}
+	for i := 0; i < n; i++ {
+		k := uint64(2)
+		if rng.Chance(1, 5) {
+			k = 1
+		}
+		ops = append(ops, gop{kind: k, w: uint64(100 + i)})
+	}
+	for i := len(ops) - 1; i > 0; i-- { // start order
+		j := rng.Intn(i + 1)
+		ops[i], ops[j] = ops[j], ops[i]
+	}
+	for i := range ops {
+		o := &ops[i]
+		wg.Add(1)
+		go func() {
+			defer wg.Done()
+			var err error
+			switch o.kind {
+			case 0:
+				err = tv.Delete()
+			case 1:
+				err = tv.Set(o.w)
+			default:
+				_, err = tv.Compute(func(cur uint64, ex bool) (uint64, error) {
+					o.s = 0
+					if ex {
+						o.s = cur
+					}
+
+					return o.w, nil
+				})
+			}
+			if err != nil {
+				failures.Add(1)
+			}
+		}()
+	}
+	// give all of them the time to queue up behind the parked writer
+	time.Sleep(time.Duration(rng.Range(300, 2500)) * time.Microsecond)
+	close(gs.release)
+	if !waitAll(&wg, 60*time.Second) {
+		return bad("gate schedule: the calls did not return within 60s")
+	}
+	if failures.Load() != 0 {
+		return bad("gate schedule: a call failed although no fault was injected")
+	}
+	final := uint64(0)
+	raw, err := base.Get(tvKey)
+	if err == nil {
+		final, _ = decU64(raw)
+	}
+	// ---- property oracle ----
+	if parkedCompute && parkedSeen != 10 {
+		r.Fail("no-lost-update", fmt.Sprintf("the parked Compute was given %d instead of the stored 10", parkedSeen),
+			map[string]string{"oracle": "not-serialisable", "api": "TypedValue.Compute", "part": "gate"})
+	}
+	if !serialOrderExists(20, ops, final) {
+		var desc []string
+		for _, o := range ops {
+			switch o.kind {
+			case 0:
+				desc = append(desc, "Delete")
+			case 1:
+				desc = append(desc, fmt.Sprintf("Set(%d)", o.w))
+			default:
+				desc = append(desc, fmt.Sprintf("Compute(given %d -> %d)", o.s, o.w))
+			}
+		}
+		r.Fail("no-lost-update", fmt.Sprintf("after a parked writer left 20, no serial order of [%s] explains what the compute functions were given and the final value %d (0 = absent)",
+			strings.Join(desc, ", "), final),
+			map[string]string{"oracle": "not-serialisable", "api": "TypedValue.Compute", "part": "gate"})
+	}
+	gv, gerr := tv.Get()
+	if (gerr == nil) != (final != 0) || (gerr == nil && gv != final) {
+		r.Fail("cache-coherent", fmt.Sprintf("gate schedule: at quiescence Get=(%d,%v) but the store holds %d (0 = absent)", gv, gerr, final),
+			map[string]string{"oracle": "cache-value", "api": "TypedValue.Get", "part": "gate"})
+	}
+	ks, ws, ss := make([]uint64, len(ops)), make([]uint64, len(ops)), make([]uint64, len(ops))
+	for i, o := range ops {
+		ks[i], ws[i], ss[i] = o.kind, o.w, o.s
+	}
+	r.Count("conc:gate-rounds")
+
+	return fmt.Sprintf("conc gate 20 %d %s %s %s", final, csv(ks), csv(ws), csv(ss))
+}
+
 func runConc(r *hx.Run, kind string, rng *hx.Rng) string {
 	if kind == "mixed" {
 		return runMixed(r, rng)
@@ -634,13 +843,16 @@ func runConc(r *hx.Run, kind string, rng *hx.Rng) string {
 	if kind == "wide" {
 		return runWide(r, rng)
 	}
+	if kind == "gate" {
+		return runGate(r, rng)
+	}
 
 	return runCounter(r, rng)
 }
 
 func concPart(r *hx.Run) {
-	nc, nm, nwide := 200*r.Scale, 120*r.Scale, 8*r.Scale
-	for i := 0; i < nc+nm+nwide; i++ {
+	nc, nm, nwide, ngate := 200*r.Scale, 120*r.Scale, 8*r.Scale, 300*r.Scale
+	for i := 0; i < nc+nm+nwide+ngate; i++ {
 		rng, sub := r.Rng.Fork()
 		r.Case(sub)
 		kind := "counter"
@@ -649,6 +861,9 @@ func concPart(r *hx.Run) {
 		}
 		if i >= nc+nm {
 			kind = "wide"
+		}
+		if i >= nc+nm+nwide {
+			kind = "gate"
 		}
 		line := runConc(r, kind, rng)
 		r.Line(line, "accept")
